@@ -453,6 +453,20 @@ pub fn history_noise(n: usize) {
                 let _ = b.insert("b", 3);
             }
         }
+        // a build with a wide node (256-byte index) on a device that fills up somewhere else each time: over many rounds the
+        // failure lands in every kind of emission, also in the middle of an index table
+        {
+            let total = 16 + (n.wrapping_mul(37)) % 420;
+            let sink = crate::sinks::Sink::new(crate::sinks::Policy::Capacity { total, chunk: [usize::MAX, 7, 100][n % 3], fault: if n % 2 == 0 { crate::sinks::Fault::Zero } else { crate::sinks::Fault::Err(std::io::ErrorKind::Other) } });
+            if let Ok(mut b) = Builder::new(sink) {
+                for c in 0..40u8 {
+                    if b.insert([b'!' + c * 2 + (n % 2) as u8], c as u64 * 300).is_err() {
+                        break;
+                    }
+                }
+                let _ = b.finish();
+            }
+        }
         // a builder that migrates between threads (both directions)
         if n % 5 == 0 {
             let mut b = Builder::memory();
